@@ -36,8 +36,12 @@ def fitShiftsR (bx bu : Bool) (rows : List (Row K)) : Except FitErr (Lin K) :=
   fitShifts (rowsObs rows) (rowsWxy bx rows) (rowsWuv bu rows)
 
 /-- `fit_general(xy, uv, wxy, wuv)` on rows -/
-def fitGeneralR (eps : K) (bx bu : Bool) (rows : List (Row K)) : Except FitErr (Lin K) :=
-  fitGeneral eps (rowsObs rows) (rowsWxy bx rows) (rowsWuv bu rows)
+def fitGeneralR (eps epsD : K) (bx bu : Bool) (rows : List (Row K)) : Except FitErr (Lin K) :=
+  fitGeneral eps epsD (rowsObs rows) (rowsWxy bx rows) (rowsWuv bu rows)
+
+/-- the collinearity guard of `fit_general` on rows -/
+def generalGuardR (epsD : K) (bx bu : Bool) (rows : List (Row K)) : Bool :=
+  generalGuard epsD (rowsObs rows) (rowsWxy bx rows) (rowsWuv bu rows)
 
 /-- `fit_rscale(xy, uv, wxy, wuv, scale)` on rows (`fit_rshift`: `scale = some 1`) -/
 def fitRscaleR [HasTrig K] (bx bu : Bool) (scale : Option K) (rows : List (Row K)) :
